@@ -229,10 +229,30 @@ func (g *c08SheetGen) genValue() []c07CssTok {
 }
 
 // declaration list inside a block; last=true ends with '}' (already consumed by the caller otherwise)
+// declJunk writes what may stand at the start of a declaration without being reported: comments and stray
+// semicolons (empty declarations), adjacent in either order, with optional whitespace between them.
+func (g *c08SheetGen) declJunk() {
+	if !g.r.Chance(1, 3) {
+		return
+	}
+	k := 1 + g.r.Intn(3)
+	for j := 0; j < k; j++ {
+		if g.r.Bool() {
+			g.text = append(g.text, c07GenComment(g.r)...)
+		} else {
+			g.text = append(g.text, ';')
+		}
+		if g.r.Chance(1, 3) {
+			g.text = append(g.text, c07GenWS(g.r)...)
+		}
+	}
+}
+
 func (g *c08SheetGen) genDeclarations(depth int, allowNested bool) {
 	n := g.r.Intn(4)
 	for i := 0; i < n; i++ {
 		g.ws(false)
+		g.declJunk()
 		switch {
 		case g.r.Chance(1, 8):
 			// custom property: the value is the exact source text
@@ -267,6 +287,7 @@ func (g *c08SheetGen) genDeclarations(depth int, allowNested bool) {
 		}
 	}
 	g.ws(false)
+	g.declJunk()
 }
 
 func (g *c08SheetGen) genSelector(nested bool) []c07CssTok {
@@ -812,6 +833,7 @@ func c08FmtUnits(us []c08CssUnit) string {
 
 // well-formed stylesheets yield exactly the units the source contains
 func c08OracleWellFormed(r *Rng, tier string, rep *Report) {
+	c08DeclJunkProbes(rep)
 	c08NestedProbes(rep)
 	c08StaleValuesProbe(rep)
 	n := 8000
@@ -897,6 +919,50 @@ func c08StaleValuesProbe(rep *Report) {
 			}
 		}
 		rep.Eval("probe-stale:"+in, true, "probe")
+	}
+}
+
+// fixed probes for what may stand at the start of a declaration without being reported: comments and stray semicolons,
+// adjacent in either order, in an inline declaration list and in a declaration block
+func c08DeclJunkProbes(rep *Report) {
+	lists := []struct {
+		text  string
+		names []string
+	}{
+		{"color:red;/*x*/;margin:0", []string{"color", "margin"}}, {"/*x*/;a:b", []string{"a"}}, {"a:b;/*x*/;", []string{"a"}},
+		{";/*x*/a:b", []string{"a"}}, {"/*x*/a:b", []string{"a"}}, {";;a:b;;", []string{"a"}}, {"a:b; /*x*/ ; c:d", []string{"a", "c"}},
+		{"a:b;;/*x*/;/*y*/;c:d", []string{"a", "c"}}, {"/*x*/;", nil}, {";/*x*/", nil}, {"a:b;/*x*//*y*/;;c:d;/*z*/", []string{"a", "c"}},
+	}
+	for _, l := range lists {
+		for _, inline := range []bool{true, false} {
+			in := l.text
+			if !inline {
+				in = "s{" + l.text + "}"
+			}
+			units, _, ok := c08RunParser([]byte(in), inline)
+			var got []string
+			bad := !ok
+			for _, u := range units {
+				switch {
+				case u.gt == css.DeclarationGrammar:
+					got = append(got, string(u.data))
+				case u.gt == css.ErrorGrammar && u.parseErr:
+					bad = true
+					got = append(got, fmt.Sprintf("Error(%v)", u.err))
+				case u.gt == css.BeginRulesetGrammar || u.gt == css.EndRulesetGrammar || u.gt == css.ErrorGrammar:
+				default:
+					bad = true
+					got = append(got, fmt.Sprintf("%v(%q)", u.gt, u.data))
+				}
+			}
+			if !bad && strings.Join(got, ",") != strings.Join(l.names, ",") {
+				bad = true
+			}
+			if bad {
+				rep.Violate("wellformed-decl-junk:"+in, fmt.Sprintf("css parser on %q (inline=%v): comments and stray semicolons at the start of a declaration are skipped, expected the declarations %q, got %q", in, inline, l.names, got), map[string]interface{}{"input": in, "inline": inline})
+			}
+			rep.Eval("probe-decl-junk:"+in, true, "probe")
+		}
 	}
 }
 
